@@ -1,11 +1,12 @@
-import PdfVerif.Model.CONCCache
+import PdfVerif.Lemmas.CONCNoDead
 /-!
 # C18 — counterexample traces (the theorems of C18conc* are not vacuous)
 
 * `prefix_*`: the model of `cacheStoreOrLoad` **before** commit 231d3ca (`fixed := false`)
   violates `cache_monotone` and `agreement` on a three-transition race over a chain `r1 → r2`
   (defect D12); the same trace on the repaired model keeps the published value.
-* `nil_iface_*`: a nil value of an interface type makes the second `DecodeExclusive` panic (C18-F1).
+* `nil_result_returned_as_nil`: since commit e69b1c0 (C18-F1 repaired) a nil result is handed to
+  the waiter and to every later call as nil; nothing panics.
 * `pair_on_chain_*`: `StoreOrLoadPair` on the head of a reference chain breaks agreement (C18-F2);
   this is why `agreement` carries the hypothesis `PairOnDirect`.
 * `exclusive_self_deadlock`: `DecodeExclusive` re-entered for its own key blocks for ever (the
@@ -19,8 +20,8 @@ open PdfVerif PdfVerif.CONC
 /-- file: object 1 is a reference to object 2, everything else is direct -/
 def chainGet (r : Ref) : GetRes := if r = 1 then .ref 2 else .direct
 
-def oldCfg : Cfg := ⟨chainGet, fun _ => false, false⟩
-def newCfg : Cfg := ⟨chainGet, fun _ => false, true⟩
+def oldCfg : Cfg := ⟨chainGet, false⟩
+def newCfg : Cfg := ⟨chainGet, true⟩
 
 /-- A (thread 0) follows r1 → r2, misses both and is parked in `Get(r2)`; B (thread 1) decodes
 r2, publishes value 5 and returns it. -/
@@ -57,24 +58,38 @@ theorem fixed_same_trace :
       = some [.dec 1 (.ref 2) 0 (.ok 5), .dec 0 (.ref 1) 0 (.ok 5)] := by
   refine ⟨by decide, by decide, by decide⟩
 
-/-! ## C18-F1: nil value of an interface type -/
+/-! ## C18-F1 (repaired by commit e69b1c0): a nil result is shared like any other value -/
 
-def ifaceCfg : Cfg := ⟨fun _ => .direct, fun tp => decide (tp ≥ 2), true⟩
+def flat0 : Cfg := ⟨fun _ => .direct, true⟩
 
-/-- one exclusive decode of r1 with interface type 2 whose function returns the nil value -/
-def d14a : List Label :=
-  [(0, .callExcl (.ref 1) 2 []), (0, .go), (0, .go), (0, .fnRet (.ok nilVal)), (0, .go), (0, .go),
-   (0, .go)]
+/-- thread 0 decodes `r1` exclusively and its function returns the nil value; thread 1 arrives
+while the pending is open and waits -/
+def nilA : List Label :=
+  [(0, .callExcl (.ref 1) 2 []), (1, .callExcl (.ref 1) 2 []), (0, .go), (0, .go),
+   (0, .fnRet (.ok nilVal)), (0, .go), (0, .go), (0, .go), (1, .go)]
 
-/-- the first call returns `(nil, nil)`; the second call of the same thread panics on the
-unchecked assertion `v.(T)` -/
-theorem nil_iface_second_call_panics :
-    (run ifaceCfg State.init d14a).map (fun s => (s.thr 0, s.hist.head?))
-      = some ([], some (.exc 0 (.ref 1) 2 (.ok nilVal) (some 0))) ∧
-    (run ifaceCfg State.init (d14a ++ [(0, .callExcl (.ref 1) 2 [])])).map
-        (fun s => (s.thr 0, s.hist.head?))
-      = some ([.dead], some (.exc 0 (.ref 1) 2 .panic none)) := by
-  constructor <;> decide
+/-- Before the fix the waiter and every later `DecodeExclusive` / `StoreOrLoadPair` of the
+reference panicked on `v.(T)`.  Now the owner, the waiter, a later exclusive decode, a later
+`Decode` and a later `StoreOrLoadPair` all return the nil value, and no thread dies. -/
+theorem nil_result_returned_as_nil :
+    (run flat0 State.init
+        (nilA ++ [(0, .callExcl (.ref 1) 2 []), (1, .callDecode (.ref 1) 2 []), (2, .callPair 1 2 3 8 9)])).map
+        (fun s => (s.hist, s.thr 0, s.thr 1, s.thr 2))
+      = some ([.pair 2 1 2 3 8 9 (some (nilVal, 9)), .dec 1 (.ref 1) 2 (.ok nilVal),
+               .exc 0 (.ref 1) 2 (.ok nilVal) none, .exc 1 (.ref 1) 2 (.ok nilVal) (some 0),
+               .exc 0 (.ref 1) 2 (.ok nilVal) (some 0), .dec 0 (.ref 1) 2 (.ok nilVal),
+               .run 0 2 [1] [1] (some 0)], [], [], []) := by
+  decide
+
+/-- in general (all traces, all values — nil or not, any types): if no decode function panics, no
+thread ever dies; the protocol's own conversions (`r, _ := v.(T)` on the cache-hit, waiter and
+pair paths) cannot panic. -/
+theorem protocol_never_panics (cfg : Cfg) (ls : List Label) (s : State)
+    (hl : ∀ l ∈ ls, l.2 ≠ .fnRet .panic) (h : run cfg State.init ls = some s) (t : Tid) :
+    ∀ f ∈ s.thr t, f ≠ .dead :=
+  run_inv cfg (fun l => l.2 ≠ .fnRet .panic) (fun s => ∀ t, NoDead (s.thr t))
+    (fun _ _ _ _ hg hi hs => noDead_step hg hi hs) ls State.init s hl
+    (by intro t f hf; simp [State.init] at hf) h t
 
 /-! ## C18-F2: StoreOrLoadPair on the head of a reference chain -/
 
@@ -94,7 +109,7 @@ theorem pair_on_chain_breaks_agreement :
 
 /-! ## the documented restriction of DecodeExclusive -/
 
-def flatCfg : Cfg := ⟨fun _ => .direct, fun _ => false, true⟩
+def flatCfg : Cfg := ⟨fun _ => .direct, true⟩
 
 /-- a decode function running under `DecodeExclusive(r1)` calls `DecodeExclusive(r1)` again -/
 def selfDeadlock : List Label :=
